@@ -20,8 +20,12 @@ CONSTANTS Kinds, MaxRows,
 VARIABLES rows, pos, traces, failed, rc, phase
 vars == <<rows, pos, traces, failed, rc, phase>>
 
-Init == /\ rows \in UNION {[1..n -> Kinds] : n \in 0..MaxRows}
-        /\ pos = 0 /\ traces = <<>> /\ failed = 0 /\ rc = 0 /\ phase = "decoding"
+Init == /\ rows = <<>> /\ pos = 0 /\ traces = <<>> /\ failed = 0 /\ rc = 0 /\ phase = "building"
+
+\* the store's content: any sequence of row kinds up to the bound, built one row at a time
+AddRow(kind) == /\ phase = "building" /\ Len(rows) < MaxRows
+                /\ rows' = Append(rows, kind) /\ UNCHANGED <<pos, traces, failed, rc, phase>>
+StartCommand == /\ phase = "building" /\ phase' = "decoding" /\ UNCHANGED <<rows, pos, traces, failed, rc>>
 
 DecodeNext == /\ phase = "decoding" /\ pos < Len(rows)
               /\ LET o == Outcome(rows[pos + 1]) IN
@@ -34,12 +38,12 @@ Build == /\ phase = "decoding" /\ pos = Len(rows)
             THEN rc' = 1 /\ phase' = "crashed"
             ELSE rc' = 0 /\ phase' = IF Len(traces) = 0 THEN "no_traces" ELSE "stub"
          /\ UNCHANGED <<rows, pos, traces, failed>>
-Next == DecodeNext \/ Build
+Next == (\E kind \in Kinds : AddRow(kind)) \/ StartCommand \/ DecodeNext \/ Build
 Spec == Init /\ [][Next]_vars
 
 NeverFatal == phase # "crashed" /\ rc = 0
 SkipsExactly == phase \in {"stub", "no_traces"} =>
                   /\ failed = Cardinality({j \in 1..Len(rows) : ~DecodableKind(rows[j])})
                   /\ Len(traces) = Cardinality({j \in 1..Len(rows) : DecodableKind(rows[j])})
-NoTracesIff == phase = "no_traces" <=> (phase # "decoding" /\ phase # "crashed" /\ \A j \in 1..Len(rows) : ~DecodableKind(rows[j]))
+NoTracesIff == phase = "no_traces" <=> (phase \notin {"building", "decoding", "crashed"} /\ \A j \in 1..Len(rows) : ~DecodableKind(rows[j]))
 =============================================================================
